@@ -166,6 +166,15 @@ namespace Pistache::Tcp
 
         auto& entry = it->second;
         entry.disable();
+
+        // Nobody waits for this timer any more. On the transport's own thread it
+        // is released at once; otherwise it is closed when it would have fired.
+        if (std::this_thread::get_id() == context().thread())
+        {
+            reactor()->removeFd(key(), fd);
+            timers.erase(it);
+            close(fd);
+        }
     }
 
     void Transport::handleIncoming(const std::shared_ptr<Peer>& peer)
@@ -589,6 +598,12 @@ namespace Pistache::Tcp
                     entry.deferred.resolve(numWakeups);
                 }
             }
+        }
+        else
+        {
+            // The timer was disarmed before it fired: its continuation, which
+            // closes the descriptor of a timer that fires, will never run.
+            close(entry.fd);
         }
     }
 
